@@ -183,10 +183,9 @@ class Translate(BaseTranslateFilter, TranslatableFilter):
                 message=(left.value,),
             )
 
-        if isinstance(_filter.args[0], PositionalArgument):
-            _context: Expression | None = _filter.args[0].value
-        else:
-            _context = None
+        # The message context is the first positional argument, wherever it is.
+        positional = [a for a in _filter.args if isinstance(a, PositionalArgument)]
+        _context: Expression | None = positional[0].value if positional else None
 
         plural: Expression | None = None
         for arg in _filter.args:
@@ -310,10 +309,12 @@ class NGetText(BaseTranslateFilter, TranslatableFilter):
         _filter: Filter,
         lineno: int,
     ) -> MessageText | None:
-        if len(_filter.args) < 1:
+        # Keyword arguments are message variables. They can appear anywhere.
+        positional = [a for a in _filter.args if isinstance(a, PositionalArgument)]
+        if len(positional) < 1:
             return None
 
-        plural = _filter.args[0].value
+        plural = positional[0].value
 
         if not isinstance(left, StringLiteral) or not isinstance(plural, StringLiteral):
             return None
@@ -363,10 +364,12 @@ class PGetText(BaseTranslateFilter, TranslatableFilter):
     def message(  # noqa: D102
         self, left: Expression, _filter: Filter, lineno: int
     ) -> MessageText | None:
-        if len(_filter.args) < 1:
+        # Keyword arguments are message variables. They can appear anywhere.
+        positional = [a for a in _filter.args if isinstance(a, PositionalArgument)]
+        if len(positional) < 1:
             return None
 
-        ctx = _filter.args[0].value
+        ctx = positional[0].value
 
         if not isinstance(left, StringLiteral) or not isinstance(ctx, StringLiteral):
             return None
@@ -433,11 +436,13 @@ class NPGetText(BaseTranslateFilter, TranslatableFilter):
         _filter: Filter,
         lineno: int,
     ) -> MessageText | None:
-        if len(_filter.args) < 2:  # noqa: PLR2004
+        # Keyword arguments are message variables. They can appear anywhere.
+        positional = [a for a in _filter.args if isinstance(a, PositionalArgument)]
+        if len(positional) < 2:  # noqa: PLR2004
             return None
 
-        ctx = _filter.args[0].value
-        plural = _filter.args[1].value
+        ctx = positional[0].value
+        plural = positional[1].value
 
         if (
             not isinstance(left, StringLiteral)
